@@ -27,3 +27,21 @@ def SIGN_DCK(data):
 class AbsSigner:
     def sign(self, data):
         return SIGN_DCK(data)
+
+
+class AbsRotMeta:
+    """Spec-level abstract RoT meta block: the bytes it exports."""
+
+    def __init__(self, data):
+        self._bytes = data
+
+    def export(self):
+        return self._bytes
+
+    def __len__(self):
+        return len(self._bytes)
+
+
+class AbsVersion:
+    def __init__(self, major, minor):
+        self.major, self.minor = major, minor
